@@ -140,6 +140,8 @@ class Check(core.CheckBase):
                 for item in mutate.pure_random(rng, per_class // 2):
                     yield item
             stream = seedless()
+        if case['kind'] == 'seed':
+            stream = list(stream) + list(self.consistent_truncations(cls_name, data))
         for number, (recipe, mutant) in enumerate(stream):
             entries = ['parse_immutable']
             if number % 3 == 0:
@@ -147,6 +149,24 @@ class Check(core.CheckBase):
             for entry in entries:
                 found.extend(self.judge_input(cls_name, mutant, entry, recipe))
         return found
+
+    @staticmethod
+    def consistent_truncations(cls_name, data):
+        """A framed message cut at every offset with the frame length corrected, so that the outer framing stays consistent
+        and the cut lands inside the body parser (TLS handshake: type + uint24 length; TLS record: 5-byte header with a
+        uint16 length; SSH binary packet: uint32 packet_length and padding_length)."""
+        short = cls_name.split(':')[1]
+        cuts = lambda size: sorted(set(list(range(min(size, 160))) + list(range(0, size, max(1, size // 96))) +
+                                        list(range(max(0, size - 24), size))))
+        if short.startswith('TlsHandshake') and len(data) >= 4 and int.from_bytes(data[1:4], 'big') == len(data) - 4:
+            for cut in cuts(len(data) - 4):
+                yield ('consistent-truncation', cut), data[:1] + cut.to_bytes(3, 'big') + data[4:4 + cut]
+        elif short == 'TlsRecord' and len(data) >= 5 and int.from_bytes(data[3:5], 'big') == len(data) - 5:
+            for cut in cuts(len(data) - 5):
+                yield ('consistent-truncation', cut), data[:3] + cut.to_bytes(2, 'big') + data[5:5 + cut]
+        elif short.startswith('TlsExtension') and len(data) >= 4 and int.from_bytes(data[2:4], 'big') == len(data) - 4:
+            for cut in cuts(len(data) - 4):
+                yield ('consistent-truncation', cut), data[:2] + cut.to_bytes(2, 'big') + data[4:4 + cut]
 
     def judge_input(self, cls_name, data, entry, recipe):
         cls = self.targets.get(cls_name) or inventory.resolve(cls_name)
